@@ -14,6 +14,7 @@
 #include <cstring>
 #include <functional>
 #include <limits>
+#include <map>
 #include <new>
 #include <sstream>
 #include <string>
@@ -51,6 +52,9 @@ template <class T> static bool same(T a, T b)
 }
 static bool same(bool a, bool b) { return a == b; }
 
+// executed-case counters per test family x instantiation (evidence key `inventory`, see props/C04/cover.py)
+static std::map<std::string, unsigned long long> g_cnt;
+#define COUNT(k) do { static unsigned long long *c_ = &g_cnt[(k)]; ++*c_; } while (0)
 static int g_printed = 0;
 static void fail(const std::string &clause, const std::string &detail)
 {
@@ -184,6 +188,7 @@ template <class T> static int opcls(int c, bool nz) { return (std::is_floating_p
 // vec op vec, vec op scalar, scalar op vec; VA, VB operand vector types (same N), VR the documented result type
 template <class Op, class VA, class VB, class VR> static void t_bin()
 {
+  COUNT(std::string(Op::nm()) + "/" + vname<VA>() + "," + vname<VB>());
   typedef typename Dim<VA>::S T; typedef typename Dim<VB>::S U; typedef typename Dim<VR>::S R;
   const int n = Dim<VA>::n;
   T a[4]; U b[4]; T sa[1]; U sb[1];
@@ -214,6 +219,7 @@ template <class Op, class VA, class VB, class VR> static void t_bin()
 // compound assignment: a op= b, a op= s; the scalar definition is the scalar compound assignment on each component
 template <class Op, class VA, class VB> static void t_asg()
 {
+  COUNT(std::string(Op::nm()) + "/" + vname<VA>() + "," + vname<VB>());
   typedef typename Dim<VA>::S T; typedef typename Dim<VB>::S U;
   const int n = Dim<VA>::n;
   T a[4]; U b[4]; U s[1];
@@ -248,6 +254,7 @@ template <class T> static bool near(T got, long double ref, long double mag, int
 
 template <class VA, class VB> static void t_dot_cmp()
 {
+  COUNT("cmpdot/" + vname<VA>() + "," + vname<VB>());
   typedef typename Dim<VA>::S T;
   const int n = Dim<VA>::n;
   T a[4], b[4];
@@ -277,6 +284,7 @@ template <class VA, class VB> static void t_dot_cmp()
 }
 template <class VA, class VB> static void t_cross()
 {
+  COUNT("cross/" + vname<VA>() + "," + vname<VB>());
   typedef typename Dim<VA>::S T;
   T a[3], b[3];
   fill(a, 3, MUL2); fill(b, 3, MUL2);
@@ -296,6 +304,7 @@ template <class VA, class VB> static void t_cross()
 // std::less, min, max, reductions, arg_max, sum/product
 template <class V> static void t_order()
 {
+  COUNT("order/" + vname<V>());
   typedef typename Dim<V>::S T;
   const int n = Dim<V>::n;
   T a[4], b[4];
@@ -327,6 +336,7 @@ template <class V> static void t_order()
 }
 template <class V> static void t_argmax()
 {
+  COUNT("arg_max/" + vname<V>());
   typedef typename Dim<V>::S T;
   const int n = Dim<V>::n;
   T a[4];
@@ -340,6 +350,7 @@ template <class V> static void t_argmax()
 }
 template <class V> static void t_reduce()
 {
+  COUNT("reduce/" + vname<V>());
   typedef typename Dim<V>::S T;
   const int n = Dim<V>::n;
   T a[4], m[4];
@@ -385,6 +396,7 @@ template <class V> struct Signed<V, true>
 {
   static void run()
   {
+    COUNT("unary-abs/" + vname<V>());
     typedef typename Dim<V>::S T;
     const int n = Dim<V>::n;
     T a[4];
@@ -401,6 +413,7 @@ template <class V> struct Signed<V, true>
 };
 template <class V> static void t_interp()
 {
+  COUNT("interpolate_uv/" + vname<V>());
   typedef typename Dim<V>::S T;
   const int n = Dim<V>::n;
   T f[3], a[4], b[4], c[4];
@@ -423,6 +436,7 @@ template <class V> struct IntOnly<V, true>
 {
   static void run()
   {
+    COUNT("divRoundUp/" + vname<V>());
     typedef typename Dim<V>::S T;
     const int n = Dim<V>::n;
     T a[4], b[4];
@@ -448,6 +462,7 @@ template <class V> struct FloatOnly<V, true>
 {
   static void run()
   {
+    COUNT("floatfun/" + vname<V>());
     typedef typename Dim<V>::S T;
     const int n = Dim<V>::n;
     T a[4];
@@ -483,6 +498,7 @@ template <class V> struct FloatOnly<V, true>
 };
 template <bool A> static void t_madd()
 {
+  COUNT(std::string("madd/floatx3") + (A ? "a" : ""));
   typedef vec_t<float, 3, A> V;
   float a[3], b[3], c[3];
   fill(a, 3, MUL4); fill(b, 3, MUL4); fill(c, 3, MUL4);
@@ -494,9 +510,101 @@ template <bool A> static void t_madd()
   g_nontrivial++;
 }
 
+
+// unary - and + for EVERY element type (unsigned: wrap-around, 8/16 bit: computed in int and narrowed); sin / cos on integer element
+// types (the scalar call returns double, converted back per component); clamp and lerp (rkmath.h templates) applied to vectors;
+// madd on double vectors (scalar madd<double>)
+template <class V> static void t_unary_all()
+{
+  typedef typename Dim<V>::S T;
+  const int n = Dim<V>::n;
+  COUNT("unary/" + vname<V>());
+  T a[4];
+  fill(a, n, ORD);
+  V va = mkv<V>(a);
+  V ng = -va, ps = +va;
+  for (int i = 0; i < n; i++) {
+    EXPECT("operator-(unary)/" + vname<V>(), same(get(ng, i), (T)(-a[i])), "a=" + showa(a, n) + " component " + std::to_string(i) + " got " + show(get(ng, i)) + " want " + show((T)(-a[i])));
+    EXPECT("operator+(unary)/" + vname<V>(), same(get(ps, i), (T)(+a[i])), "a=" + showa(a, n) + " component " + std::to_string(i) + " got " + show(get(ps, i)) + " want " + show((T)(+a[i])));
+  }
+}
+template <class V, bool I = std::is_integral<typename Dim<V>::S>::value> struct IntTrig { static void run() {} };
+template <class V> struct IntTrig<V, true>
+{
+  static void run()
+  {
+    typedef typename Dim<V>::S T;
+    const int n = Dim<V>::n;
+    COUNT("sincos-int/" + vname<V>());
+    T a[4];
+    fill(a, n, POS);
+    V va = mkv<V>(a);
+    V s = sin(va), c = cos(va);
+    for (int i = 0; i < n; i++) {
+      T ws = (T)sin(a[i]), wc = (T)cos(a[i]);
+      EXPECT("sin/" + vname<V>(), same(get(s, i), ws), "a=" + showa(a, n) + " component " + std::to_string(i) + " got " + show(get(s, i)) + " want " + show(ws));
+      EXPECT("cos/" + vname<V>(), same(get(c, i), wc), "a=" + showa(a, n) + " component " + std::to_string(i) + " got " + show(get(c, i)) + " want " + show(wc));
+    }
+  }
+};
+// clamp(x) with the default bounds needs T(zero) / T(one): ambiguous for signed char (int8_t), see props/C04/cover.py
+template <class V, bool OK = !std::is_same<typename Dim<V>::S, signed char>::value> struct ClampDefault { static V ap(const V &x) { return clamp(x); } };
+template <class V> struct ClampDefault<V, false>
+{
+  static V ap(const V &x) { typedef typename Dim<V>::S T; return clamp(x, V(T(0)), V(T(1))); }
+};
+template <class V> static void t_clamp_lerp()
+{
+  typedef typename Dim<V>::S T;
+  const int n = Dim<V>::n;
+  COUNT("clamp-lerp/" + vname<V>());
+  T x[4], lo[4], hi[4];
+  fill(x, n, MUL4); fill(lo, n, MUL4); fill(hi, n, MUL4);
+  for (int i = 0; i < n; i++) if (hi[i] < lo[i]) { T t = lo[i]; lo[i] = hi[i]; hi[i] = t; }
+  V r = clamp(mkv<V>(x), mkv<V>(lo), mkv<V>(hi));
+  V d = ClampDefault<V>::ap(mkv<V>(x));                                       // default bounds T(zero), T(one) broadcast to every component
+  for (int i = 0; i < n; i++) {
+    T w = std::max(std::min(x[i], hi[i]), lo[i]);
+    T wd = std::max(std::min(x[i], (T)1), (T)0);
+    EXPECT("clamp(vec)/" + vname<V>(), same(get(r, i), w), "x=" + showa(x, n) + " lo=" + showa(lo, n) + " hi=" + showa(hi, n) + " component " + std::to_string(i) + " got " + show(get(r, i)) + " want " + show(w));
+    EXPECT("clamp(vec,default bounds)/" + vname<V>(), same(get(d, i), wd), "x=" + showa(x, n) + " component " + std::to_string(i) + " got " + show(get(d, i)) + " want " + show(wd));
+  }
+}
+template <class V, bool F = std::is_floating_point<typename Dim<V>::S>::value> struct Lerp { static void run() {} };
+template <class V> struct Lerp<V, true>
+{
+  static void run()
+  {
+    typedef typename Dim<V>::S T;
+    const int n = Dim<V>::n;
+    COUNT("lerp/" + vname<V>());
+    T a[4], b[4];
+    fill(a, n, MUL4); fill(b, n, MUL4);
+    float f = rndint(-8, 24) / 16.f;
+    V r = lerp(f, mkv<V>(a), mkv<V>(b));
+    for (int i = 0; i < n; i++) {
+      T w = (T)((T)((1.f - f) * a[i]) + (T)(f * b[i]));
+      EXPECT("lerp/" + vname<V>(), same(get(r, i), w), "f=" + show(f) + " a=" + showa(a, n) + " b=" + showa(b, n) + " component " + std::to_string(i) + " got " + show(get(r, i)) + " want " + show(w));
+    }
+  }
+};
+template <bool A> static void t_madd_d()
+{
+  typedef vec_t<double, 3, A> V;
+  COUNT(std::string("madd/doublex3") + (A ? "a" : ""));
+  double a[3], b[3], c[3];
+  fill(a, 3, MUL4); fill(b, 3, MUL4); fill(c, 3, MUL4);
+  V r = madd(mkv<V>(a), mkv<V>(b), mkv<V>(c));
+  for (int i = 0; i < 3; i++) {
+    double w = a[i] * b[i] + c[i];
+    EXPECT("madd/" + vname<V>(), same(get(r, i), w), "a=" + showa(a, 3) + " b=" + showa(b, 3) + " c=" + showa(c, 3) + " component " + std::to_string(i) + " got " + show(get(r, i)) + " want " + show(w));
+  }
+}
+
 // ------------------------------------------------------------------------------------------------ construction, conversion, indexing, layout, streaming
 template <class V> static void t_access()
 {
+  COUNT("access/" + vname<V>());
   typedef typename Dim<V>::S T;
   const int n = Dim<V>::n;
   T a[4];
@@ -540,6 +648,7 @@ template <class V> static void t_access()
 }
 template <class T> static void t_ctors()
 {
+  COUNT(std::string("ctors/") + TN<T>::n());
   T a[8];
   fill(a, 8, ORD);
   vec_t<T, 2> v2(a[0], a[1]);
@@ -570,6 +679,7 @@ template <class T> static void t_ctors()
 // element type conversion T -> U for every shape: converting constructor, explicit conversion operator, broadcast of a U
 template <class T, class U> static void t_convert()
 {
+  COUNT(std::string("convert/") + TN<T>::n() + "->" + TN<U>::n());
   T a[4];
   const bool f2i = std::is_floating_point<T>::value && !std::is_floating_point<U>::value;
   const bool narrow_signed = !std::is_floating_point<T>::value && !std::is_floating_point<U>::value;
@@ -642,6 +752,7 @@ template <class T> struct PaddedBox
 };
 template <class T> static void t_padded()
 {
+  COUNT(std::string("padded/") + TN<T>::n());
   typedef vec_t<T, 3, true> VA; typedef vec_t<T, 3> V;
   T a[3], b[3];
   fill(a, 3, MUL4); fill(b, 3, MUL4);
@@ -712,6 +823,10 @@ template <class T> static void all_for_type(int iters)
     FloatOnly<V2>::run(); FloatOnly<V3>::run(); FloatOnly<V3A>::run(); FloatOnly<V4>::run();
     t_access<V2>(); t_access<V3>(); t_access<V3A>(); t_access<V4>();
     t_ctors<T>();
+    t_unary_all<V2>(); t_unary_all<V3>(); t_unary_all<V3A>(); t_unary_all<V4>();
+    IntTrig<V2>::run(); IntTrig<V3>::run(); IntTrig<V3A>::run(); IntTrig<V4>::run();
+    t_clamp_lerp<V2>(); t_clamp_lerp<V3>(); t_clamp_lerp<V3A>(); t_clamp_lerp<V4>();
+    Lerp<V2>::run(); Lerp<V3>::run(); Lerp<V3A>::run(); Lerp<V4>::run();
     t_padded<T>(); t_padded<T>(); t_padded<T>();
   }
   printf("COV type_%s=%d\n", TN<T>::n(), iters);
@@ -749,7 +864,7 @@ int main(int argc, char **argv)
 #if ORACLE_PART == 0
   all_for_type<float>(iters);
   all_for_type<double>(iters);
-  for (int it = 0; it < iters; it++) { t_madd<false>(); t_madd<true>(); }
+  for (int it = 0; it < iters; it++) { t_madd<false>(); t_madd<true>(); t_madd_d<false>(); t_madd_d<true>(); }
   mixed<float, double>(iters / 2);
 #elif ORACLE_PART == 1
   all_for_type<int32_t>(iters);
@@ -762,14 +877,20 @@ int main(int argc, char **argv)
   all_for_type<int8_t>(iters);
   all_for_type<uint8_t>(iters);
   mixed<int64_t, int32_t>(iters / 2);
+  mixed<uint8_t, int32_t>(iters / 2);
+  mixed<int8_t, float>(iters / 2);
   mixed_rem<int32_t, uint8_t>(iters / 2);
+  mixed_rem<uint8_t, int16_t>(iters / 2);
 #else
   all_for_type<int16_t>(iters);
   all_for_type<uint16_t>(iters);
   mixed<int16_t, int8_t>(iters / 2);
+  mixed<uint16_t, uint8_t>(iters / 2);
+  mixed<int16_t, int32_t>(iters / 2);
   mixed<uint32_t, int32_t>(iters / 2);
   mixed<double, int64_t>(iters / 2);
 #endif
+  for (std::map<std::string, unsigned long long>::iterator it = g_cnt.begin(); it != g_cnt.end(); ++it) printf("CNT %s %llu\n", it->first.c_str(), it->second);
   printf("COV nontrivial=%llu\n", g_nontrivial);
   printf("DONE checks=%llu fails=%llu\n", g_checks, g_fail);
   return 0;
